@@ -85,6 +85,15 @@ def make_scenarios(ctx, count):
         if rng.random() < 0.12 and len(frames) > 4 and style != "overflow":
             # the link's MTU changes while the interface lives on: every frame sent afterwards must fit the new one
             mtu_change = (rng.randrange(1, len(frames)), rng.choice([576, 1500, 9000, rng.choice(G.MTUS_TINY), G.pick_mtu(rng)]))
+        shadow = None
+        if i % 4 == 3 and style != "overflow":
+            # a second interface of the same host with its own session (icon transfers, Resets) in between
+            cfg1, fr1 = G.shadow_iface(rng, cfg, max(6, len(frames) // 2))
+            net1 = G.Net(rng, cfg1["mac"])
+            for _ in range(rng.randint(1, 3)):
+                pos = rng.randrange(len(fr1) + 1)
+                fr1[pos:pos] = [G.f_discover(rng, net1, m=0, tos=0), G.f_qlt(rng, net1, 0, typ=0x0E, off=0), G.f_reset(rng, net1, m=0, tos=0)]
+            shadow = (cfg1, fr1)
         for tag, fill, lst in (("a", "165", a), ("b", "256 %d" % rng.randint(1, 10 ** 6), b)):
             s = H.Scenario("%s%d" % (tag, i), meta=dict(frames=frames, cfg=cfg, style=style, pair=i, flow=use_flow, mtu_change=mtu_change))
             s.add("FILL " + fill)
@@ -93,7 +102,14 @@ def make_scenarios(ctx, count):
             grng = G.rng_for(ctx.seed, "C02gap", i) if i % 2 else None       # the same clock in both runs of the pair
             if grng is not None and grng.random() < 0.5:
                 s.add("NOW %d" % grng.choice(s.BASES_MS))
+            srng = G.rng_for(ctx.seed, "C02shadow", i)
+            sh = list(shadow[1]) if shadow else []
+            if shadow:
+                s.iface(1, **H.iface_kw(shadow[0]))
+                s.meta["shadow_iface"] = 1
             for k, fr in enumerate(frames):
+                while sh and srng.random() < 0.4:
+                    s.frame(1, sh.pop(0))
                 if mtu_change is not None and k == mtu_change[0]:
                     s.add("MTU 0 %d %d" % (mtu_change[1], cfg["rxseed"]))
                 if grng is not None and grng.random() < 0.2:
@@ -227,5 +243,6 @@ def run(ctx):
     for op in ("Hello", "Probe", "Train", "ACK", "QueryResp", "QueryLargeTlvResp"):
         rep.need("sent:" + op, c.get("sent:" + op, 0), 100)
     rep.need("style:overflow (more observations than the responder keeps)", c.get("style:overflow", 0), 10)
+    rep.need("inputs_of_a_second_interface_in_between", rep.counters.get("inputs_of_a_second_interface_in_between", 0), 2000)
     rep.need("mtu_changed_mid_history", c.get("mtu_changed_mid_history", 0), 50)
     rep.need("clock_gaps_between_frames", rep.counters.get("clock_gaps_between_frames", 0), 200)
